@@ -238,6 +238,9 @@ LIB: Dict[str, Callable[[List[Kinds]], Set[str]]] = {
     "chr": const("ValueError", "OverflowError"),  # chr(0x110000) ValueError; chr(2**32-1) OverflowError
     "ord": const(),  # only applied to single characters produced by the escape tokenizer
     "re2.search": dyn_only("re2.error", "TypeError"),  # invalid pattern; non-string argument
+    "re2.match": dyn_only("re2.error", "TypeError"),
+    "re2.fullmatch": dyn_only("re2.error", "TypeError"),
+    "re2.compile": dyn_only("re2.error", "TypeError"),  # the same errors surface when the pattern is compiled first
     "pendulum.parse": const("ParserError", "ValueError", "OverflowError"),  # unparsable text / out-of-range fields
     "timezone": const("InvalidTimezone"),  # pendulum.timezone(name)
     "json.loads": const("JSONDecodeError"),
